@@ -6,14 +6,69 @@ import solver_common as S
 
 CLAIMED = True
 
+STAT_KEYS = ["cost", "distance", "duration", "driving", "serving", "waiting", "break"]
+
+
+def w_compare(case, verdict):
+    """writer stage: the Lean model of create_tour, run on the dump of every core route, must render the tour the real writer
+    rendered (stops, activities, times, tags, loads, distances, statistic); oracle = the reader's specification on the real tours"""
+    impl = case.get("impl") or {}
+    if isinstance(impl, dict) and "panic" in impl:
+        return {"agree": False, "holds": False, "detail": "implementation panicked: " + str(impl["panic"])[:300]}
+    if "error" in impl:
+        return {"skipped": True}
+    model = (verdict.get("model") or {}).get("tours")
+    oracle = verdict.get("oracle", {})
+    bad = [k for k, v in oracle.items() if v is False]
+    diffs = []
+    if model is None or len(model) != len(impl.get("tours", [])):
+        diffs.append("number of tours")
+    else:
+        for i, (m, t) in enumerate(zip(model, impl["tours"])):
+            if m is None:
+                continue   # commute / non-integral: outside the model, counted by the driver
+            t2 = {"stops": t["stops"], "statistic": {k: t["statistic"][k] for k in STAT_KEYS}}
+            if m != t2:
+                what = "statistic" if m["stops"] == t2["stops"] else "stops"
+                diffs.append(f"tour {i} ({t.get('vehicleId')}): {what} differ")
+    detail = ""
+    if diffs:
+        detail = "writer model and real writer differ: " + "; ".join(diffs[:4])
+    if bad:
+        detail = "oracle failed: " + ",".join(sorted(bad)) + " " + str((verdict.get("info") or {}).get("bad"))[:600]
+    return {"agree": not diffs, "holds": not bad, "detail": detail}
+
+
+def w_nontrivial(case, verdict):
+    info = verdict.get("info") or {}
+    return info.get("routes", 0) >= 1 and info.get("activities", 0) >= 4
+
+
+def w_extra(cases, verdicts):
+    tot = {}
+    for v in verdicts.values():
+        for k, x in (v.get("info") or {}).items():
+            if isinstance(x, int) and not isinstance(x, bool):
+                tot[k] = tot.get(k, 0) + x
+    return {"what": "route dumps of real solver outputs: Lean writeTour vs the real writer, tour by tour", "totals": tot}
+
+
 PROP = dict(
-    proof_modules=["VrpProofs.C03"],
-    model_modules=["VrpModel.Route", "VrpModel.C03", "VrpModel.Prag", "VrpModel.Spec"],
+    proof_modules=["VrpProofs.C03", "VrpProofs.C03W"],
+    model_modules=["VrpModel.Route", "VrpModel.C03", "VrpModel.C03W", "VrpModel.Prag", "VrpModel.Spec"],
     drv="drv_c01", bin="c01", share_run=True, corpus_ids=["C01", "C02", "C03"],
+    secondary=[dict(bin="c03w", drv="drv_c03w", full=True, compare=w_compare, nontrivial=w_nontrivial, extra_evidence=w_extra,
+                    corpus_ids=["C03W"],
+                    label="writer stage: Lean model of create_tour vs the real writer on dumps of real routes")],
     compare=S.make_compare("replay"), nontrivial=S.nontrivial, extra_evidence=S.extra, rule=S.RULE,
-    modelled="the statistic fold of solution_writer.rs::create_tour (duration, distance, driving/serving/waiting/break split, cost) on the "
-             "fragment without commute/parking and reserved times",
-    traced="the writer as a whole: Spec.replay recomputes from matrices, vehicle costs and the reported visiting order only — arrival = previous "
+    modelled="solution_writer.rs::create_tour as a whole on routes without commute/parking and reserved times (C03W.writeTour: the fold over "
+             "the reload intervals and the activities - stops and their grouping by location, activity ids / types / place tags / times, "
+             "loads per interval incl. get_capacity and calculate_load, cumulative stop distances, the statistic, the fixed cost, the pass "
+             "that removes redundant activity details), tied by the route-dump correspondence (every route of real solver outputs is dumped "
+             "through the public core API and the model must render exactly the tour the real writer rendered); the older statistic-only "
+             "fold C03.foldLeg",
+    traced="create_solution around create_tour (overall statistic, unassigned, violations) and the writer on clustered / reserved-time "
+           "routes: Spec.replay recomputes from matrices, vehicle costs and the reported visiting order only — arrival = previous "
            "departure + scaled travel time, cumulative stop distances, activities inside a stop sequential, load per stop (per reload "
            "interval), tour statistic, cost = fixed + distance*c_d + duration*c_t, overall = sum of tours; the reported tag is the tag of "
            "the place (location, duration, window) that explains the activity (Spec.feasible/placeExplains)",
@@ -22,11 +77,17 @@ PROP = dict(
 )
 
 META = dict(
-    text="Proof (Lean 4), tours of any length: the writer's statistic fold equals the replay of the visiting order — duration telescopes to "
+    text="Proof (Lean 4), routes of any length, any number of reload intervals, any demands: the tour the writer model renders meets every "
+         "clause of the reader's specification (writeTour_meets_spec: activities = the route's activities in visiting order, none lost / "
+         "duplicated / reordered; duration = last - first departure; distance = sum of legs = distance of the last stop; timing entries = sums "
+         "over the activities; consistent schedule => driving+serving+waiting+break = duration and cost = fixed + distance*c_d + duration*c_t; "
+         "consecutive stops differ in location; no empty stop; writeTour_total). Tie 1: correspondence - the model must render exactly "
+         "the tour the real create_tour rendered for every route of real solver outputs (route dump through the public core API). "
+         "Older statistic-only fold: the writer's statistic fold equals the replay of the visiting order — duration telescopes to "
          "last departure minus first departure, driving+serving+waiting+break = duration, distance = sum of leg distances, cost = fixed + "
          "distance*c_d + duration*c_t, the overall statistic is the sum of the tours (foldLeg_duration, foldLeg_timing_split, "
          "foldLeg_distance, foldLeg_cost, tourStat_is_replay, overall_is_sum). Tie: the independent Lean replay specification is evaluated on "
          "every solution document the real solver + writer return in the configuration campaign (times, loads, distances, statistics, tags).",
-    note=COMMON_NOTE + " The writer model is tied to the code through the replay oracle on real outputs (no separate route-dump correspondence yet).",
-    technique="Lean 4 induction over the writer's fold + Lean-defined replay oracle on real solver outputs",
+    note=COMMON_NOTE + " The writer model create_tour is tied by a route-dump correspondence on real routes; clustered routes (commute/parking) and required breaks (reserved times) are outside it and judged by the replay oracle only.",
+    technique="Lean 4 induction over a model of the writer create_tour (correspondence with the real writer on route dumps) + Lean-defined replay oracle on real solver outputs",
 )
